@@ -1276,7 +1276,8 @@ impl Path {
     ) -> Option<Self> {
         let bounding_box = data.compute_tight_bounds()?;
         let stroke_bounding_box =
-            Path::calculate_stroke_bbox(stroke.as_ref(), &data).unwrap_or(bounding_box);
+            Path::calculate_stroke_bbox(stroke.as_ref(), &data, Transform::default())
+                .unwrap_or(bounding_box);
 
         let abs_bounding_box: Rect;
         let abs_stroke_bounding_box: Rect;
@@ -1285,8 +1286,10 @@ impl Path {
             let path2 = data.as_ref().clone();
             let path2 = path2.transform(abs_transform)?;
             abs_bounding_box = path2.compute_tight_bounds()?;
+            // The stroke must be transformed as well: stroke in object space, then transform.
             abs_stroke_bounding_box =
-                Path::calculate_stroke_bbox(stroke.as_ref(), &path2).unwrap_or(abs_bounding_box);
+                Path::calculate_stroke_bbox(stroke.as_ref(), &data, abs_transform)
+                    .unwrap_or(abs_bounding_box);
         } else {
             // A transform without a skew can be performed just on a bbox.
             abs_bounding_box = bounding_box.transform(abs_transform)?;
@@ -1396,7 +1399,11 @@ impl Path {
         self.abs_stroke_bounding_box
     }
 
-    fn calculate_stroke_bbox(stroke: Option<&Stroke>, path: &tiny_skia_path::Path) -> Option<Rect> {
+    fn calculate_stroke_bbox(
+        stroke: Option<&Stroke>,
+        path: &tiny_skia_path::Path,
+        ts: Transform,
+    ) -> Option<Rect> {
         let mut stroke = stroke?.to_tiny_skia();
         // According to the spec, dash should not be accounted during bbox calculation.
         stroke.dash = None;
@@ -1405,7 +1412,7 @@ impl Path {
 
         // Expensive, but there is not much we can do about it.
         if let Some(stroked_path) = path.stroke(&stroke, 1.0) {
-            return stroked_path.compute_tight_bounds();
+            return stroked_path.transform(ts)?.compute_tight_bounds();
         }
 
         None
